@@ -455,6 +455,10 @@ fn input_strategy() -> BoxedStrategy<(String, Option<(i32, i32)>)> {
         3 => cellr().prop_map(|a| format!("={a}#")),
         2 => (cellr(), 1..5i32).prop_map(|(a, k)| format!("={a}#+{k}")),
         1 => (1..=3i32, 1..=3i32, 1..3i32, 0..2i32).prop_map(|(r, c, h, w)| format!("=Sheet2!{}*3", rng(r, c, h, w))),
+        // single-cell references across sheets (sizes and elements taken from the other sheet)
+        2 => (other(), 1..3i32).prop_map(|(a, b)| format!("=SEQUENCE({a},{b})")),
+        1 => other().prop_map(|a| format!("={a}*{{1,2}}")),
+        1 => (1..=4i32, 1..=4i32).prop_map(|(r, c)| format!("=SEQUENCE(Sheet1!{})", kit::a1(r, c))),
     ];
     let scalar = prop_oneof![
         3 => (1..=N, 1..=N, 0..3i32, 0..3i32).prop_map(|(r, c, h, w)| format!("=SUM({})", rng(r, c, h, w))),
@@ -491,7 +495,7 @@ fn input_strategy() -> BoxedStrategy<(String, Option<(i32, i32)>)> {
 }
 
 pub fn case_strategy(max_cells: usize) -> BoxedStrategy<Case> {
-    let cell = (prop_oneof![9 => Just(0u8), 1 => Just(1u8)], 1..=N, 1..=N, input_strategy())
+    let cell = (prop_oneof![4 => Just(0u8), 1 => Just(1u8)], 1..=N, 1..=N, input_strategy())
         .prop_map(|(s, r, c, (t, cse))| In { s, r: if s == 1 { (r - 1) % 4 + 1 } else { r }, c: if s == 1 { (c - 1) % 4 + 1 } else { c }, t, cse });
     (
         prop::collection::vec(cell, 3..=max_cells),
@@ -554,8 +558,8 @@ pub fn run(ctx: &Ctx) {
     ctx.assume("a dynamic array that reads its own spill area is a circular input without a defined value: such cases are skipped (counted as excluded)");
     ctx.assume("fresh-process determinism is approximated in-process: every engine HashMap gets its own RandomState, so two builds of the same case iterate their maps in different orders");
     let (cases, cells) = match ctx.tier {
-        Tier::Quick => (10000, 14),
-        Tier::Thorough => (300000, 20),
+        Tier::Quick => (150000, 14),
+        Tier::Thorough => (3000000, 20),
     };
     let avoid = avoid_of(ctx);
     ctx.campaign(
